@@ -22,6 +22,30 @@ TEXT = {
         level="Proof over the constructors as regenerated from hsms.go by the translator (gen/Ctrl.v): C14_layout_req, C14_layout_reject, C14_short_system_bytes, C14_echo (responses echo session id and system bytes, wrong kind refused), C14_bytes, C14_type_function, C14_type_total (all 65,536 (PType, SType) pairs: forallb ... = true by vm_compute, lifted with forallb_forall), C14_decode. Correspondence suite C14 is exhaustive over session ids, status/reason codes and (PType, SType) pairs.",
         note=BASE_NOTE + " The translation of the eight constructors, Type() and ToBytes() is by gengo's recognised statement forms; an unrecognised form makes CtrlTie.v fail.",
         technique="Coq proof over translator-generated definitions (reflexivity, finite sweep lifted by forallb_forall) + exhaustive correspondence"),
+    "C04": dict(
+        level="Proof (partial): C04_partial_decimal / C04_partial_unsigned / C04_partial_binary / C04_partial_size (what the printers emit for numbers and sizes is read back as the same value, all widths). The full statement C04_print_parse is kept visible in props/C04.v and is not proved; it is decided by the Go-side monitors of suite C04 (API-built messages printed and re-parsed: exactly one message, no error, no warning, same header fields, variables, printed form and bytes once completed; and for every accepted text, each returned message is a fixed point) and by the correspondence of printer, lexer and parser with the model.",
+        note=BASE_NOTE + " Float text is an oracle (strconv).",
+        technique="Coq proof at the literal level + print/parse monitors + differential correspondence of printer, lexer and parser"),
+    "C05": dict(
+        level="Proof: C05_int / C05_uint / C05_bin (a number token that adds no error is stored as the integer strconv reads from it, within the item's range), C05_digits (printing in base 2..36 then scanning is the identity), C05_decimal (value or range error at every width, never wrapped), C05_prefixed (0x/0b/0o in either case), C05_quoted / C05_quoted_refused. Floats: oracle (C05_float_partial). Suite C05: literal grammar for all 14 types with expected values computed independently of library and model.",
+        note=BASE_NOTE + " strconv.ParseInt/ParseUint/Atoi are re-implemented in the model for the token language of the lexer; ParseFloat is an oracle.",
+        technique="Coq proof over a re-implementation of strconv's integer scanning + literal-grammar suite with an independent oracle"),
+    "C06": dict(
+        level="Proof (partial): C06_all_or_nothing, C06_positions (every reported position has 1 <= line <= number of lines, column >= 1), C06_terminates (all model functions are structurally recursive on a fuel bounded by the input). C06_no_crash_partial is stated, not proved. The runtime half: token soups, mutated messages, random bytes and resource-hostile texts in a worker subprocess under an address-space limit and a watchdog: no panic escapes, no abort, no hang, TotalAlloc below a fixed linear bound; all-or-nothing, message count and diagnostic format/position monitors on the library.",
+        note=BASE_NOTE + " Partial: time complexity and the Go stack are not modelled.",
+        technique="Coq proof of all-or-nothing and position bounds + hostile-input worker subprocess + token-soup correspondence"),
+    "C08": dict(
+        level="Proof (partial): C08_whitespace (any run of blanks, tabs, CR, LF before a token is skipped in both lexer states and shifts offsets by exactly its length), C08_positions, C08_prefix_case. The comment half and keyword case (C08_gap_partial) are decided by metamorphic pairs on the library (same token sequence, valid or invalid, under different layouts, comment texts with arbitrary trailing bytes, letter case) and the token-level correspondence with the lexer model.",
+        note=BASE_NOTE,
+        technique="Coq proof (whitespace skipping by induction) + metamorphic layout pairs + token-stream correspondence"),
+    "C15": dict(
+        level="Proof: C15_iff (the size check refuses exactly the counts outside the bounds), C15_form_exact / _range / _lower / _upper (each declaration form denotes the bounds written, for all bounds below 2^63), C15_overflow (clamped bounds still refuse), C15_variable (an ASCII variable enforces its bounds on fill). Suite C15 is the exhaustive grid over types, forms and (lower, upper, count) in 0..5 with an independent expectation.",
+        note=BASE_NOTE,
+        technique="Coq proof (arithmetic + decimal scanning) + exhaustive grid with independent oracle"),
+    "C19": dict(
+        level="Proof (partial): C19_scoping (parsing a message is independent of the names and ellipsis counter left by the previous one), C19_separator (white space between messages is skipped). The concatenation law itself (C19_concat_partial) is decided by suite C19: sequences of accepted texts joined by every separator class, on the library (monitor) and on the model.",
+        note=BASE_NOTE,
+        technique="Coq proof of scoping + concatenation monitor + differential correspondence"),
     "C07": dict(
         level="Proof (partial): C07_total (the decoder model's only outcomes are rejection or the denoted message), C07_alloc / C07_alloc_items (allocation units, charged where the Go code allocates, are at most 5 per input byte + 16 whatever lengths the input declares; mutual induction over the fuel using decoder soundness), C07_depth (recursion depth at most half the input length). The runtime half: every hostile input is decoded in a worker subprocess under an address-space limit and a watchdog, runtime.MemStats.TotalAlloc must stay below 2048 bytes per input byte + 64 KiB, no panic may escape, an abort is a violation unless it is the listed known finding K1 (stack overflow at 8,000,000 nesting levels).",
         note=BASE_NOTE + " Partial: the allocator, GC and the 1 GB goroutine stack cap are the Go runtime's; the unit cost model is tied to the code by the TotalAlloc bound, not by proof.",
